@@ -291,9 +291,15 @@ class Point(object):
                 raise ValueError("The PEP must be solved to evaluate Points!")
             # If linear combination, combine the values of the leaf, and store the result before returning it.
             else:
-                value = np.zeros(Point.counter)
+                # The dimension of the values is fixed by the solve that evaluated the leaf points,
+                # not by the current number of leaf points (which grows when points are created afterwards).
+                value = None
                 for point, weight in self.decomposition_dict.items():
-                    value += weight * point.eval()
+                    term = weight * point.eval()
+                    value = term if value is None else value + term
+                if value is None:
+                    evaluated = [point._value for point in Point.list_of_leaf_points if point._value is not None]
+                    value = np.zeros(evaluated[0].shape if evaluated else Point.counter)
                 self._value = value
 
         return self._value
